@@ -25,6 +25,11 @@ func (h *Harness) feed(ev *Event) {
 	h.StartEv = int32(c.Events + 1)
 	h.PrePages = h.A.PagesUsed()
 	h.PreMax, _, _, _ = h.A.Queued()
+	if b, ok := h.A.(interface{ Buffered() int }); ok {
+		// what counts towards the per-connection limit: queued pages and pages
+		// kept on request of the stream
+		h.PreMax = b.Buffered()
+	}
 	h.PktPages = pagesOf(pk.Len)
 	h.created = nil
 	h.liveAt = h.cur[d.Idx]
@@ -75,12 +80,17 @@ func (h *Harness) feed(ev *Event) {
 		}
 	}
 	h.Kind = CallNone
-	if h.Lifecycle && h.NoKeep {
-		maxp, _, _, _ := h.A.Queued()
+	if h.Lifecycle {
+		// out-of-order pages are counted by walking the queues (pages a stream
+		// asked to keep are not among them)
+		maxp, queued, _, _ := h.A.Queued()
 		if l := p.PerConnLimit; l > 0 && maxp > l+h.PktPages {
-			c.Fail("page-limit", "exceeded", "per-connection", "after Assemble a connection holds %d pages; limit %d, packet being processed %d pages", maxp, l, h.PktPages)
+			c.Fail("page-limit", "exceeded", "per-connection", "after Assemble a connection holds %d out-of-order pages; limit %d, packet being processed %d pages", maxp, l, h.PktPages)
 		}
-		if l := p.TotalLimit; l > 0 && h.A.PagesUsed() > l+h.PktPages {
+		if l := p.TotalLimit; l > 0 && queued > l+h.PktPages {
+			c.Fail("page-limit", "exceeded", "total", "after Assemble %d out-of-order pages are queued; limit %d, packet being processed %d pages", queued, l, h.PktPages)
+		}
+		if l := p.TotalLimit; l > 0 && h.NoKeep && h.A.PagesUsed() > l+h.PktPages {
 			c.Fail("page-limit", "exceeded", "total", "after Assemble %d pages are in use; limit %d, packet being processed %d pages", h.A.PagesUsed(), l, h.PktPages)
 		}
 	}
